@@ -919,7 +919,7 @@ End Monotone.
 
 (* ================= Part 4: the unrepaired code ================= *)
 
-Definition wF (id g : Z) : file := mkFile id g fv_filetype_driver 32.
+Definition wF (id g : Z) : file := mkFile id g fv_filetype_driver 32 None.
 Definition is_driver : file -> bool := type_pred fv_filetype_driver.
 Definition t_accept : testres := (true, 0).
 Definition t_reject : testres := (false, 0).
